@@ -2,4 +2,4 @@
 # run every registered quick check against a repository tree; print one line per check
 REPO=${1:-/repo}; VERIF=${2:-/verif}
 export PATH=/opt/veriftools/go1.26.8/bin:$PATH GOTOOLCHAIN=local GOFLAGS=-mod=mod GOPROXY=off GOSUMDB=off; unset GOWORK
-for i in C01 C02 C03 C04 C05 C06 C07 C08 C09 C10 C11 C12 C13 C14 C15 C16 C18 C19 C20; do echo $i; done | xargs -P 6 -I{} sh -c "/verif/bin/grogcheck check {} -repo $REPO -verif $VERIF > /tmp/runall_{}.out 2>&1; echo {} exit=\$? \$(grep -c '^VIOLATION' /tmp/runall_{}.out) violations \$(grep -c KNOWN-FINDING /tmp/runall_{}.out) known" | sort
+for i in C01 C02 C03 C04 C05 C06 C07 C08 C09 C10 C11 C12 C13 C14 C15 C16 C17 C18 C19 C20; do echo $i; done | xargs -P 6 -I{} sh -c "/verif/bin/grogcheck check {} -repo $REPO -verif $VERIF > /tmp/runall_{}.out 2>&1; echo {} exit=\$? \$(grep -c '^VIOLATION' /tmp/runall_{}.out) violations \$(grep -c KNOWN-FINDING /tmp/runall_{}.out) known" | sort
